@@ -234,15 +234,16 @@ PROPS = {
 }
 
 PROPS["C04"] = dict(
-    modules=["HT.Props.C04"],
+    modules=["HT.Props.C04", "HT.Props.C04Http"],
     streams=["c04seg"],
     rule="services configured on a real Honeytrap (real Run(): construction, port table, bus, filter -> capture channel), "
          "connections handed to the real handle() (findService, timeout wrapper, recover) over a scripted connection whose "
-         "Read returns exactly one client segment: per service (ftp, telnet, memcached, redis, smtp incl. DATA and BDAT; http "
-         "and UDP services: see c04seg statistics) grammar-generated dialogues delivered in one piece, one write per command "
+         "Read returns exactly one client segment: per service (ftp, telnet, memcached, redis, smtp incl. DATA and BDAT, http "
+         "with content-length bodies; chunked http bodies oracle only) grammar-generated dialogues delivered in one piece, one write per command "
          "(pipelined and lock-step), at every single cut point (all for short streams, a stride for long ones), sampled "
-         "multi-cut, one byte per read, and cut short; mutated/raw streams; each through the Lean framing machine with the "
-         "same segments; oracle: events equal those of the same bytes in one piece and the list computed from the commands "
+         "multi-cut, one byte per read, and cut short; mutated/raw streams; datagrams to dns, tftp, snmp, counterstrike, echo "
+         "and memcached-udp from distinct sources through the dispatcher; each through the Lean framing machine / datagram "
+         "decoder with the same segments (dns, snmp: oracle only); oracle: events equal those of the same bytes in one piece and the list computed from the commands "
          "as generated; non-trivial = at least one event; distinct = distinct case line",
     trusted=COMMON_TB + ["verif hook server/verif_hooks.go (VerifNew, VerifHandle)",
                          "scripted in-memory connection instead of a kernel socket (segment = what one Read returns)",
@@ -407,9 +408,10 @@ MANIFEST_TEXT = {
              "fields (memcached: the first 80 bytes of the value, whatever it contains). Tied to the real services by runs "
              "through the real dispatcher over every single cut point of generated dialogues.",
         design_ref="DESIGN.md section 7, C04 and section 11",
-        note="Partial: the exactly-once theorems are proved for ftp, telnet and memcached; for redis and smtp the "
-             "segmentation theorem is proved and the event list is checked by the correspondence and the oracle; http and "
-             "the UDP services are covered by the oracle runs only. Library parsing (textproto, net/mail, net/http) is modelled.",
+        note="Partial: the exactly-once theorems are proved for ftp, telnet and memcached; for redis, smtp and http "
+             "(method, target, first 1024 body bytes) the segmentation theorem is proved and the event list is checked by "
+             "the correspondence and the oracle; http headers/host, dns and snmp datagrams are judged by the oracle only. "
+             "Library parsing (textproto, net/mail, net/http) is modelled, not verified.",
         technique="Lean 4 proof (parser-combinator monotonicity, induction over segmentations) + differential correspondence",
     ),
     "C16": dict(
